@@ -4279,7 +4279,8 @@ class FuncTimestamp(ValueFunc):
         return []
 
     def execute(self, args, environment, pos):
-        return ValueInt(datetime.datetime.now().timestamp())
+        # whole seconds: an int value holds a host int
+        return ValueInt(int(datetime.datetime.now().timestamp()))
 
 
 class FuncTrim(ValueFunc):
